@@ -114,8 +114,8 @@ func c09WriteSet(c *Ctx) {
 			}
 		}
 	}
-	c.Floor("writeset functions", len(fns), 8, "format, linesForFormat, formatIndent, formatSpaces, formatCells (+2 closures), spaceAfterToken, tokenBracketChange, tokenIsNewline, Columns")
-	c.Floor("writeset stores", nStores, 6, "SpacesBefore stores in formatIndent, formatSpaces, formatCells")
+	c.Floor("writeset functions", len(fns), 6, "format, linesForFormat, formatIndent, formatSpaces, formatCells (+2 closures), spaceAfterToken, tokenBracketChange, tokenIsNewline, Columns")
+	c.Floor("writeset stores", nStores, 3, "SpacesBefore stores in formatIndent, formatSpaces, formatCells")
 }
 
 // R2
